@@ -87,6 +87,48 @@ def r2_let_chains(text):
             found = True
             break
         if not found:
+            break
+    # second form: `if C && let P = E { B }` without else -> `if C { if let P = E { B } }` (C is evaluated first, as before)
+    while True:
+        m = L.mask(text)
+        found = False
+        for k in re.finditer(r"\bif\b(?!\s+let\b)", m):
+            i = k.end()
+            j = i
+            amp = None
+            while j < len(m):
+                c = m[j]
+                if c in "([":
+                    j = L.match_close(m, j)
+                elif c == "{":
+                    break
+                elif c == ";":
+                    break
+                elif m.startswith("&&", j) and re.match(r"&&\s*let\b", m[j:]):
+                    amp = j
+                    break
+                j += 1
+            if amp is None:
+                continue
+            # block `{` after the let-condition
+            j = amp
+            while j < len(m) and m[j] != "{":
+                if m[j] in "([":
+                    j = L.match_close(m, j)
+                j += 1
+            bo = j
+            bc = L.match_close(m, bo)
+            after = L.skip_ws(m, bc + 1)
+            if m.startswith("else", after):
+                continue
+            cond1 = text[k.end():amp].strip()
+            cond2 = re.sub(r"^&&\s*", "", text[amp:bo].strip())
+            body = text[bo:bc + 1]
+            text = text[:k.start()] + "if " + cond1 + " { if " + cond2 + " " + body + " }" + text[bc + 1:]
+            cnt += 1
+            found = True
+            break
+        if not found:
             return text, cnt
 
 
@@ -764,6 +806,10 @@ def r18b_hoist_question_mark(text):
                 elif c in ";{}":
                     break
                 j -= 1
+            if j >= 0 and m[j] == "{" and re.match(r"\{\s*[A-Za-z_]\w*\s*(:(?!:)|,|\})", m[j:]) and re.search(r"[A-Za-z0-9_>]\s*$", m[:j]):
+                # the enclosing brace is a struct literal (`Path { field: EXPR?, .. }`), not a block: a `let` cannot be hoisted
+                # into it; the `?` stays as it is (Verus handles `?` natively)
+                continue
             st = L.skip_ws(m, j + 1)
             prefix = m[st:es]
             # PREFIX must not contain a completed call / closing bracket
@@ -862,6 +908,104 @@ def r16b_iter_collect(text):
     return "".join(out), cnt
 
 
+def _receiver_start(m, dot):
+    """Start of the receiver expression that ends just before the `.` at m[dot]: walks back over identifiers, paths,
+    field/method chains, balanced (..)/[..] groups, `?` and `.await`."""
+    i = dot - 1
+    while i >= 0:
+        while i >= 0 and m[i].isspace():
+            i -= 1
+        if i < 0:
+            break
+        c = m[i]
+        if c in ")]":
+            depth = 0
+            j = i
+            while j >= 0:
+                if m[j] in ")]":
+                    depth += 1
+                elif m[j] in "([":
+                    depth -= 1
+                    if depth == 0:
+                        break
+                j -= 1
+            i = j - 1
+            # a call: the callee name (and its turbofish-free path) precedes the group
+            continue
+        if c == "?":
+            i -= 1
+            continue
+        if c.isalnum() or c == "_":
+            while i >= 0 and (m[i].isalnum() or m[i] == "_"):
+                i -= 1
+            # path or field separator before the identifier?
+            k = i
+            while k >= 0 and m[k].isspace():
+                k -= 1
+            if k >= 1 and m[k - 1:k + 1] == "::":
+                i = k - 2
+                continue
+            if k >= 0 and m[k] == ".":
+                i = k - 1
+                continue
+            if k >= 0 and m[k] == "&":
+                return k
+            return i + 1
+        break
+    return i + 1
+
+
+def r16c_into_iter_collect(text):
+    """R16c: `EXPR.into_iter().collect()` (also with a turbofish) -> `verif_into_iter_collect(EXPR)`: contract-only prelude
+    helper (assumed contract: the collection built from the elements of EXPR; stated per type pair in the unit prelude)."""
+    cnt = 0
+    while True:
+        m = L.mask(text)
+        r = re.search(r"\.\s*into_iter\s*\(\s*\)\s*\.\s*collect\s*(::\s*<[^;()]*?>)?\s*\(\s*\)", m)
+        if not r:
+            return text, cnt
+        st = _receiver_start(m, r.start())
+        text = text[:st] + "verif_into_iter_collect(" + text[st:r.start()].strip() + ")" + text[r.end():]
+        cnt += 1
+
+
+def r16d_iter_any(text):
+    """R16d: `RECV.iter().any(CLOSURE)` -> `verif_iter_any(&RECV, CLOSURE)`: contract-only helper (true iff the closure is true
+    for some element); the closure body is verified against its spliced `ensures`."""
+    cnt = 0
+    while True:
+        m = L.mask(text)
+        r = re.search(r"\.\s*iter\s*\(\s*\)\s*\.\s*any\s*\(", m)
+        if not r:
+            return text, cnt
+        po = r.end() - 1
+        pc = L.match_close(m, po)
+        st = _receiver_start(m, r.start())
+        text = text[:st] + "verif_iter_any(&" + text[st:r.start()].strip() + ", " + text[po + 1:pc].strip() + ")" + text[pc + 1:]
+        cnt += 1
+
+
+def r24_enumerate_loop(text):
+    """R24: `for (I, X) in RECV.iter().enumerate() {` -> `for I in 0..RECV.len() { let X = &RECV[I];` (definition of
+    `enumerate` over a slice iterator; vstd has no spec for the Enumerate adapter)."""
+    m = L.mask(text)
+    out, last, cnt = [], 0, 0
+    for r in re.finditer(r"\bfor\s*\(\s*(\w+)\s*,\s*(\w+)\s*\)\s+in\s+([A-Za-z_][\w.]*?)\s*\.\s*iter\s*\(\s*\)\s*\.\s*enumerate\s*\(\s*\)\s*\{", m):
+        out.append(text[last:r.start()])
+        out.append("for %s in 0..%s.len() { let %s = &%s[%s];" % (r.group(1), r.group(3), r.group(2), r.group(3), r.group(1)))
+        last = r.end()
+        cnt += 1
+    out.append(text[last:])
+    return "".join(out), cnt
+
+
+def r16e_hashset_from_iter(text):
+    """R16e: `HashSet::from_iter(EXPR)` -> `verif_hashset_from_iter(EXPR)`: contract-only prelude helper (assumed contract:
+    the set of the items of EXPR — std documentation of `FromIterator for HashSet`)."""
+    new, n = re.subn(r"\bHashSet\s*::\s*from_iter\s*\(", "verif_hashset_from_iter(", text)
+    return new, n
+
+
 def r22_entry_and_modify(text):
     """R22: the Entry-API chain, as a statement,
          RECV.entry(K).and_modify(|x| BODY).or_insert(V);   ->  { let k__ = K; match RECV.get_mut(&k__) { Some(x) => { BODY } None => { RECV.insert(k__, V); } } }
@@ -953,6 +1097,10 @@ def r23_hashmap_into_iter(text, exprs):
 
 RULES = {
     "R22": r22_entry_and_modify,
+    "R16e": r16e_hashset_from_iter,
+    "R16c": r16c_into_iter_collect,
+    "R16d": r16d_iter_any,
+    "R24": r24_enumerate_loop,
     "R16b": r16b_iter_collect,
     "R25": r25_eta_expand_ctor,
     "R18b": r18b_hoist_question_mark,
